@@ -1,4 +1,4 @@
--- GENERATED: axiom audit for Props/C08.lean
+-- GENERATED: axiom audit for Props/C08*.lean
 import Props.C08
 #print axioms SpyneModel.Props.C08.int_roundtrip_unbounded
 #print axioms SpyneModel.Props.C08.int_roundtrip_bounded
@@ -11,3 +11,8 @@ import Props.C08
 #print axioms SpyneModel.Props.C08.time_roundtrip
 #print axioms SpyneModel.Props.C08.datetime_roundtrip
 #print axioms SpyneModel.Props.C08.duration_roundtrip
+#print axioms SpyneModel.Props.C08.hex_roundtrip
+#print axioms SpyneModel.Props.C08.base64_roundtrip
+#print axioms SpyneModel.Props.C08.urlsafe_base64_roundtrip
+#print axioms SpyneModel.Props.C08.hex_in_lexical_space
+#print axioms SpyneModel.Props.C08.base64_in_lexical_space
